@@ -350,5 +350,137 @@ func ruleC01Sections(p *Prog, r *Res) {
 		nC++
 		r.Check(okS && reads, ruleC, "StreamByFirstPacketSource searches sectionStreamsByFirstPacketSource by first packet", p.Pos(f.Node()), "binary search over the matching section, keyed by the first packet's source", "the first-packet lookup searches another section or another key than the writer sorted by")
 	}
+	// deep key of the first-packet lookup: the writer sorts by, and the reader searches by, the same components of
+	// the first packet's source (capture file name; packet-index offset of the import record + 32-bit packet index)
+	canon := map[string]string{
+		"stream.PacketInfoStart":              "first packet",
+		"packet.ImportID":                     "import record",
+		"packet.PacketIndex":                  "32-bit packet index",
+		"writerImportEntry.filename":          "capture file name",
+		"readerImportEntry.filename":          "capture file name",
+		"writerImportEntry.offset":            "packet-index offset",
+		"readerImportEntry.packetIndexOffset": "packet-index offset",
+	}
+	if lit, f := lookupLess["sectionStreamsByFirstPacketSource"], p.Fn("index.Reader.StreamByFirstPacketSource"); lit != nil && f != nil {
+		var wp []types.Object
+		for _, fld := range lit.Type.Params.List {
+			for _, id := range fld.Names {
+				wp = append(wp, info.Defs[id])
+			}
+		}
+		var rp []types.Object
+		ast.Inspect(f.Body(), func(x ast.Node) bool {
+			if l, ok := x.(*ast.FuncLit); ok {
+				for _, fld := range l.Type.Params.List {
+					if types.TypeString(f.Pkg.TypesInfo.TypeOf(fld.Type), nil) == "*github.com/spq/pkappa2/internal/index.stream" {
+						for _, id := range fld.Names {
+							rp = append(rp, f.Pkg.TypesInfo.Defs[id])
+						}
+					}
+				}
+			}
+			return true
+		})
+		canonSet := func(m map[string]bool) (map[string]bool, []string) {
+			out := map[string]bool{}
+			var unknown []string
+			for k := range m {
+				if c, ok := canon[k]; ok {
+					out[c] = true
+				} else {
+					unknown = append(unknown, k)
+				}
+			}
+			sort.Strings(unknown)
+			return out, unknown
+		}
+		if len(wp) == 2 && len(rp) > 0 {
+			wa, ua := canonSet(deepFieldsVia(info, lit.Body, wp[0]))
+			wb, ub := canonSet(deepFieldsVia(info, lit.Body, wp[1]))
+			rk, ur := canonSet(deepFieldsVia(f.Pkg.TypesInfo, f.Body(), rp...))
+			key := "sectionStreamsByFirstPacketSource key components: writer comparator vs StreamByFirstPacketSource"
+			switch {
+			case len(ua)+len(ub)+len(ur) > 0:
+				r.Undecided(ruleC, key, p.Pos(lit), fmt.Sprintf("fields outside the frozen correspondence table are part of a key: writer %v %v reader %v", ua, ub, ur))
+			case setString(wa) != setString(wb):
+				r.Bad(ruleC, key, p.Pos(lit), fmt.Sprintf("the comparator orders its two operands by different components: a:%s b:%s", setString(wa), setString(wb)))
+			case setString(wa) != setString(rk):
+				r.Bad(ruleC, key, p.Pos(lit), fmt.Sprintf("the writer sorts the section by %s but the reader binary-searches it by %s: streams whose order differs under the two keys are not found", setString(wa), setString(rk)))
+			default:
+				r.Ok(ruleC, key, p.Pos(lit), "both sides use "+setString(wa))
+			}
+		} else {
+			r.Undecided(ruleC, "sectionStreamsByFirstPacketSource key components", p.Pos(lit), "could not locate comparator operands / reader key functions")
+		}
+	}
 	r.Floor(ruleC, 9, r.CountRule(ruleC))
+}
+
+// deepFieldsVia returns "Type.field" for every field read through a value derived from one of the seed objects:
+// a local defined from an expression that mentions a derived value is derived too (calls and index expressions
+// included), and a selector counts when its operand mentions a derived value.
+func deepFieldsVia(info *types.Info, body ast.Node, seeds ...types.Object) map[string]bool {
+	derived := map[types.Object]bool{}
+	for _, s := range seeds {
+		if s != nil {
+			derived[s] = true
+		}
+	}
+	mentions := func(e ast.Node) bool {
+		found := false
+		ast.Inspect(e, func(x ast.Node) bool {
+			if id, ok := x.(*ast.Ident); ok && derived[info.ObjectOf(id)] {
+				found = true
+			}
+			return !found
+		})
+		return found
+	}
+	for changed := true; changed; {
+		changed = false
+		ast.Inspect(body, func(x ast.Node) bool {
+			as, ok := x.(*ast.AssignStmt)
+			if !ok {
+				return true
+			}
+			for i, l := range as.Lhs {
+				id, ok := l.(*ast.Ident)
+				if !ok || id.Name == "_" {
+					continue
+				}
+				o := info.ObjectOf(id)
+				if o == nil || derived[o] {
+					continue
+				}
+				if _, isErr := o.Type().Underlying().(*types.Interface); isErr {
+					continue
+				}
+				rhs := as.Rhs[0]
+				if len(as.Rhs) == len(as.Lhs) {
+					rhs = as.Rhs[i]
+				}
+				if mentions(rhs) {
+					derived[o] = true
+					changed = true
+				}
+			}
+			return true
+		})
+	}
+	out := map[string]bool{}
+	ast.Inspect(body, func(x ast.Node) bool {
+		se, ok := x.(*ast.SelectorExpr)
+		if !ok {
+			return true
+		}
+		v, ok := info.Uses[se.Sel].(*types.Var)
+		if !ok || !v.IsField() || !mentions(se.X) {
+			return true
+		}
+		if n := namedOf(info.TypeOf(se.X)); n != nil {
+			out[n.Obj().Name()+"."+se.Sel.Name] = true
+		}
+		return true
+	})
+	return out
 }
